@@ -16,6 +16,7 @@ import (
 	"net"
 	"strings"
 	"sync"
+	"sync/atomic"
 	"time"
 
 	"github.com/AdguardTeam/golibs/logutil/slogutil"
@@ -151,6 +152,10 @@ type vc17Env struct {
 	backoff time.Duration
 	logMu   sync.Mutex
 	log     []vc17Call
+
+	// slowHealthy is set when an exchange with an upstream that answers (or
+	// refuses) at once took long: the machine, not the code, was slow.
+	slowHealthy atomic.Bool
 
 	// refreshed is set by the first health-check round with fallbacks.
 	refreshed bool
